@@ -21,7 +21,7 @@
 
 bool LoopStack::begin(bytecode_location_t location, uint8_t iterations)
 {
-    if (m_pTopItem >= m_items + CONFIG_MAX_LOOP_DEPTH) {
+    if (m_numLoops >= CONFIG_MAX_LOOP_DEPTH) {
         return false;
     }
 
